@@ -132,9 +132,11 @@ pub fn run_c06(cfg: &Cfg) -> Report {
     // boundary sweeps: each prefixed kind, body sizes around 63/64 and 4095/4096
     let mut sizes: Vec<usize> = (0..=80).collect();
     sizes.extend(4060..=4110);
+    sizes.extend(250..=260); // Byte/Word width boundary of embedded size constants
+    sizes.extend(65520..=65545); // Word/DWord width boundary of embedded size constants
     if thorough {
         sizes.extend((1 << 20) - 14..=(1 << 20) + 6);
-        sizes.extend([65520, 65535, 65536, 70000]);
+        sizes.extend([70000, 131072]);
     }
     let nk = PREFIXED_KINDS.len() as u64;
     let ns = sizes.len() as u64;
